@@ -29,6 +29,9 @@ type Layout struct {
 	// to its line in this rendering.
 	Inflate *rand.Rand
 	LineMap map[int]int
+	// FirstLine is the number of the first line of the rendering (default 1):
+	// 2 when the text will be preceded by one header line ("#!...").
+	FirstLine int
 	// FuncLines records, per Func.ID-less pointer order, nothing; see Func fields.
 }
 
@@ -54,7 +57,11 @@ func Render(c *Chunk, lay *Layout) string {
 	if lay.EOL == "" {
 		lay.EOL = "\n"
 	}
-	p := &printer{lay: lay, line: 1, baseLine: 1, atBOL: true, prevStmtEnd: -1}
+	first := 1
+	if lay.FirstLine > 1 {
+		first = lay.FirstLine
+	}
+	p := &printer{lay: lay, line: first, baseLine: first, atBOL: true, prevStmtEnd: -1}
 	if lay.Inflate != nil {
 		lay.LineMap = map[int]int{}
 	}
